@@ -18,6 +18,18 @@ CHECKS = {
  "C09": ("differential runtime monitor: independent strict and lossy string decoders as oracle over 16 decoders (in-place, copying, borrowing, key, map-key, lazy, iterator key) x {strict, utf8_lossy}; Cow variant / &str success observed for borrowed-ness; ASan",
          "Exploration: all 1,114,112 code points through \\u escapes (exhaustive, batched), all 2048 unpaired surrogates, 23 byte classes (escapes, multi-byte, malformed) on a position x length x start-offset grid (sampled; denser in thorough), random literals with injected defects.",
          "Trusted: harness decoders (strict decoder cross-checked against serde_json in the selftest). For literals that are not one string token, lossy Deserializer::deserialize (which ignores what follows the first token) carries no expectation except UTF-8 validity."),
+ "C10": ("differential runtime monitor: reference parse tree + path lookup as oracle for 20 lookup APIs (get/get_from_* over 5 carriers + guard-page slice, unchecked variants, Value::pointer/get/Index, LazyValue/OwnedLazyValue get/pointer); raw text and byte offset compared with the reference span; ASan",
+         "Exploration over seeded well-formed documents built for the block-based skipper (strings with brackets/quotes/backslash runs, whitespace runs to 70, duplicate keys) x all their paths (<= 40) plus perturbed paths (missing key, index = len, wrong kind, escaped key, empty key).",
+         "Trusted: harness recogniser and lookup. Error categories are judged for the checked variants only (NotFound / TypeUnmatched); the unchecked variants are held to the same found/not-found answer."),
+ "C11": ("runtime monitor: single-path get and the reference tree as model for get_many / get_many_unchecked (slot count, order, exact span and offset, empty slot = missing key, repeated paths identical); literal reference merge for get_by_schema; native release + debug (overflow checks) + ASan",
+         "Exploration over duplicate-free generated documents x 3 shape-consistent path sets each (shared prefixes, prefix-that-is-a-target, repeated paths, root path, missing keys) and 2 generated schemas each.",
+         "Trusted: harness recogniser; serde_json for building expected schema results. Member order of the get_by_schema result is not judged."),
+ "C12": ("runtime monitor: reference member list (decoded key, exact span, offset) and a latch check (3 further polls) over checked/unchecked iterators x 5 carriers and LazyValue::into_*_iter; ASan",
+         "Exploration over generated arrays/objects of every size 0..70, nested, escaped keys, whitespace variants, trailing bytes, and their mutations (14 mutators) incl. non-UTF-8.",
+         "Trusted: harness recogniser. A number/literal glued to further bytes (`00`, `1x`) may count as a member followed by a violation or as a malformed token (both accepted). Non-UTF-8 input: only the one-directional requirements."),
+ "C14": ("runtime monitor: every fragment returned by checked get/get_many/get_by_schema/iterators must be UTF-8, one well-formed value, inside the input, and justified by a strict reference walk that validates everything traversed before it; every prefix and every single-byte substitution of generated documents; ASan",
+         "Exploration: all prefixes and all 1-byte substitutions of 1.5k (quick) documents x their paths, 30k targeted mutations (garbage between tokens, inside skipped siblings, bad escapes, invalid UTF-8), hand-written traps.",
+         "Trusted: harness strict walker. One-directional (a returned value must be justified; rejections are never judged). get_many with duplicate names is justified by 'span inside input and everything up to its end is a well-formed JSON prefix'."),
  "C02": ("differential runtime monitor: independent RFC 8259 recogniser as accept/reject oracle over enumerated token sequences and mutated documents; ASan build",
          "Exploration: every listed entry point x carrier is executed on all token sequences up to the bound and on seeded generated/mutated documents; an independent recogniser decides what must be accepted. Held on the cases observed, not a proof over all byte strings.",
          "Trusted: the harness recogniser (cross-checked against serde_json), rustc, ASan runtime. Depth is capped at 64 so the permitted nesting-limit rejection never explains a verdict."),
